@@ -6,6 +6,9 @@ props = [json.loads(l) for l in open(os.path.join(V, "properties.jsonl"))]
 
 # id -> (level, technique, level text, level note, design ref)
 CLAIMED = {
+ "C04": ("exploration", "deterministic simulation: one generated tree materialised as a real directory (FileSystem), tar and zip archives (member order permutations, with/without directory members, ./ prefix, gnu/ustar headers with long names, stored/deflated) and the embedded form (the real embed! walker run on the directory); archives behind a faultable in-memory reader (short reads, EINTR, hard errors at open time or later) and file-backed; 1-3 threads querying one source",
+         "Seeded search over trees (unicode, spaces, empty extension, same stem with several extensions, file and directory sharing an id, > 100-byte paths), archive options, reader faults and schedules; every source must answer like the tree model: read = exact bytes, read_dir = each direct child exactly once with kind/id/extension, exists consistent with both, absent things not found, root included; under a hard reader error a call may fail but never answers wrongly, an error at open time fails the open. Sampling, not proof.",
+         "The schedule dimension is thin (readers share nothing mutable); the decision comes mostly from generated input and the reader-fault seam. The tar/zip crates' own handling of EINTR is outside the library: such calls may fail.", "DESIGN.md §7 C04"),
  "C10": ("exploration", "deterministic simulation: histories mixing load / load_owned / remove / take / clear / get_or_insert on the same keys with edits, notifications and hot_reload passes, on every cache constructor (hot, without_hot_reloading, LocalAssetCache, source without / with failing hot-reloading support), against the map model with protected-entry bookkeeping",
          "Seeded search over histories, constructors and schedules of caller vs reloader; after every hot_reload pass each protected entry (created by get_or_insert, of an opted-out type incl. Arc-wrapped, or held by a reloader-less cache) must still hold its value with reload id NEVER; references obtained with Handle::get early must read the same value at the end. Sampling, not proof.",
          "The load/get_or_insert insertion race is C01's scenario. Known open finding F-C10a is matched by signature.", "DESIGN.md §7 C10"),
